@@ -488,6 +488,40 @@ fn main() {
             Ok(format!("status {}", code))
         });
     }
+    // ---------------------------------------------------------------- findings of the bug hunt that are recorded, not repaired (known_findings.json lists each input)
+    // C16: the configured output directory is used as given, also when its name is not UTF-8
+    #[cfg(unix)]
+    rep.case("output_directory_is_used_as_given", "--output-path out/gen\\xe9 (a Latin-1 name, legal on Linux) --validation none", &|| {
+        use std::os::unix::ffi::OsStrExt;
+        let p = project(&root, "nonutf8", Some(conf_plain));
+        let gp = p.join("out").join(std::ffi::OsStr::from_bytes(b"gen\xe9"));
+        fs::create_dir_all(&gp).map_err(|e| e.to_string())?;
+        fs::write(gp.join("readme.txt"), "foreign").map_err(|e| e.to_string())?;
+        let pp = p.join("src-tauri");
+        let out = Command::new(&cli).arg("tauri-typegen").args(["generate", "--project-path"]).arg(&pp).arg("--output-path").arg(&gp).args(["--validation", "none", "--force"]).current_dir(&p).env("NO_COLOR", "1").output().map_err(|e| e.to_string())?;
+        let entries: Vec<Vec<u8>> = fs::read_dir(p.join("out")).map_err(|e| e.to_string())?.flatten().map(|e| e.file_name().as_bytes().to_vec()).collect();
+        if entries.len() != 1 { return Err(format!("the run (status {:?}) left {} entries in out/: {:?} - files went into a directory other than the configured one", out.status.code(), entries.len(), entries.iter().map(|e| String::from_utf8_lossy(e).to_string()).collect::<Vec<_>>())); }
+        if out.status.code() == Some(0) && !gp.join("types.ts").exists() { return Err("status 0, but the configured directory holds no types.ts".into()); }
+        Ok("ok".into())
+    });
+    // C15: sources that rustc accepts never abort the tool, however deeply they nest
+    for (what, body) in [
+        ("5000 nested parentheses in a function without commands", format!("pub fn deep() -> u32 {{ {}1{} }}\n", "(".repeat(5000), ")".repeat(5000))),
+        ("a sum of 20000 literals in a function without commands", format!("pub fn flat() -> u64 {{ 0{} }}\n", " + 1".repeat(20000))),
+    ] {
+        rep.case("deeply_nested_sources_do_not_abort_the_run", &format!("src/deep.rs: {} --validation none", what), &|| {
+            let p = project(&root, &format!("deep_{}", what.len()), Some(conf_plain));
+            let pp = p.join("src-tauri"); let gp = p.join("src/generated");
+            fs::write(pp.join("src/deep.rs"), &body).map_err(|e| e.to_string())?;
+            let (code, text) = match run(&cli, &p, &["generate", "--project-path", pp.to_str().unwrap(), "--output-path", gp.to_str().unwrap(), "--validation", "none", "--force"]) {
+                Ok(r) => r,
+                Err(e) => return Err(format!("the run neither succeeded nor returned an error: {}", e.chars().take(200).collect::<String>())),
+            };
+            if code != 0 && code != 1 { return Err(format!("status {}: {}", code, text.chars().take(200).collect::<String>())); }
+            if code == 0 && !gp.join("types.ts").exists() { return Err("status 0 but no types.ts".into()); }
+            Ok(format!("status {}", code))
+        });
+    }
     let _ = fs::remove_dir_all(&root);
     rep.finish()
 }
